@@ -154,7 +154,7 @@ func genWorld(seed uint64, rich bool) *world {
 		b := acmelib.NewCANIDBuilder(w.name("builder"))
 		b.SetDesc(w.desc())
 		for j, k := 0, r.rangeInt(0, 5); j < k; j++ {
-			switch r.below(5) {
+			switch r.below(7) {
 			case 0:
 				b.UseMessagePriority(r.below(30))
 			case 1:
@@ -165,6 +165,18 @@ func genWorld(seed uint64, rich bool) *world {
 				b.UseBitMask(r.below(8), r.rangeInt(0, 29))
 			case 4:
 				b.UseCAN2A()
+			default:
+				// any kind with any legal (from, len) at any index: lengths the Use* helpers never produce
+				// (a message-priority operation with a length other than 2, zero lengths, from = 31, ...)
+				from := []int{0, 1, 7, 11, 28, 29, 30, 31, r.below(32)}[r.below(9)]
+				length := []int{0, 1, 2, 3, 32 - from, r.below(33 - from)}[r.below(6)]
+				kind := acmelib.CANIDBuilderOpKind(r.below(4))
+				if err := b.InsertOperation(kind, from, length, r.below(len(b.Operations())+1)); err == nil {
+					w.count("builder-InsertOperation")
+					if kind == acmelib.CANIDBuilderOpKindMessagePriority && length != 2 {
+						w.count("builder-priority-op-len-not-2")
+					}
+				}
 			}
 		}
 		w.builders = append(w.builders, b)
@@ -242,14 +254,31 @@ func genWorld(seed uint64, rich bool) *world {
 		for i, n := 0, r.rangeInt(0, 3); i < n; i++ {
 			m := acmelib.NewMessage(w.name("msg"), acmelib.MessageID(r.below(60)), r.rangeInt(1, 8))
 			m.SetDesc(w.desc())
-			if r.chance(25) {
-				// static CAN-ID, sometimes 0 (has_static must be carried separately from the value)
+			sent := ni.SentMessages()
+			if r.chance(30) {
+				// static CAN-ID, sometimes 0 (has_static must be carried separately from the value), often the
+				// message id of a non-static message of the same interface (ids and static ids are separate spaces)
 				id := acmelib.CANID(r.below(2048))
-				if r.chance(25) {
+				if r.chance(20) {
 					id = 0
+				}
+				if len(sent) > 0 && r.chance(50) {
+					other := sent[r.below(len(sent))]
+					if !other.HasStaticCANID() {
+						id = acmelib.CANID(other.ID())
+						w.count("msg-static-canid-equals-other-message-id")
+					}
 				}
 				if err := m.SetStaticCANID(id); err == nil {
 					w.count("msg-static-canid")
+				}
+			} else if len(sent) > 0 && r.chance(30) {
+				// ... and a non-static message whose id is the static CAN-ID of an earlier message
+				other := sent[r.below(len(sent))]
+				if other.HasStaticCANID() {
+					m = acmelib.NewMessage(m.Name(), acmelib.MessageID(other.GetCANID()), m.SizeByte())
+					m.SetDesc(w.desc())
+					w.count("msg-id-equals-other-static-canid")
 				}
 			}
 			if err := ni.AddSentMessage(m); err != nil {
